@@ -199,6 +199,8 @@ def run(prop, tier, seed, replay):
         with_nan = rng.random() < 0.3 and B >= 2
         if with_nan:
             a[0, rng.randrange(B)] = float("nan")
+            if np.nansum(a[0]) == 0:           # the raw integral must be non-zero for the property to apply
+                a[0, int(np.argmax(np.isfinite(a[0])))] = 2.0
         cls = HistData if i % 2 == 0 else RedshiftData
         obj = cls(binning, a[0].copy(), a[1:].copy())
         hn_cases.append((obj, with_nan))
